@@ -356,6 +356,12 @@ pub fn vx_execve_region(cl: &CommandLine, cmd: &Command, Tracked(k): Tracked<&mu
 #[verifier::external_body]
 pub fn try_run_builtin_in_subprocess(sh: &mut Shell, cl: &CommandLine, idx_cmd: usize, capture: bool) -> (r: Option<i32>) { unimplemented!() }
 
+// the descriptors the shell holds for one stage alone
+pub open spec fn stage_key(fd: int, i: int, p: Seq<(i32, i32)>, hs: Option<(i32, i32)>, cap_last: bool, cs: Option<(i32, i32)>, ce: Option<(i32, i32)>) -> bool {
+    opt_has(hs, fd) || (0 <= i < p.len() && fd == p[i].1 as int) || (0 < i <= p.len() && fd == p[i - 1].0 as int)
+    || (cap_last && (opt_has(cs, fd) || opt_has(ce, fd)))
+}
+//@FN release_stage_fds
 //@FN run_single_program
 
 pub open spec fn mk_wiring(base: int, n: int, hs: int) -> Wiring {
@@ -488,9 +494,20 @@ RSP_RW = [
 
 CTX = 'k.child && idx_cmd < cl.commands@.len() && pipes@.len() + 1 == cl.commands@.len() && pipes_count == pipes@.len() && layout(f0, pipes@, idx_cmd as int, w, *fds_capture_stdout, *fds_capture_stderr) && ids_distinct(w) && child_start(f1, f0, fds_stdin, w) && (options.capture_output ==> fds_capture_stdout.is_some() && fds_capture_stderr.is_some()) && (!options.capture_output ==> fds_capture_stdout.is_none() && fds_capture_stderr.is_none()) && cmd == &cl.commands@[idx_cmd as int] && (cmd.redirect_from.is_some() && cmd.redirect_from.unwrap().0@ == "<<<"@ ==> fds_stdin.is_some())'
 
+release_stage_fds = Fn(C, 'release_stage_fds',
+    pre_rewrites=[Rw('libs::close(', 'close(', rule='R0', required=False)],
+    add_params='Tracked(k): Tracked<&mut Kernel>', ghost_args={'close': 'Tracked(k)'},
+    requires=[('C05.pre.release.idx', 'idx_cmd <= pipes@.len()')],
+    ensures=[('C08.release.exactly_the_descriptors_of_that_stage_are_closed',
+              '(forall|fd: int| #[trigger] final(k).fds.contains_key(fd) <==> (old(k).fds.contains_key(fd) && !stage_key(fd, idx_cmd as int, pipes@, fds_stdin, captured_last_stage, *fds_capture_stdout, *fds_capture_stderr))) '
+              '&& (forall|fd: int| final(k).fds.contains_key(fd) ==> #[trigger] final(k).fds[fd] == old(k).fds[fd]) '
+              '&& (forall|fd: int| #[trigger] final(k).cloexec.contains(fd) ==> old(k).cloexec.contains(fd)) '
+              '&& final(k).child == old(k).child && final(k).forks == old(k).forks && final(k).next_id == old(k).next_id && final(k).tty_pgrp == old(k).tty_pgrp '
+              '&& final(k).pgrp == old(k).pgrp && final(k).self_pid == old(k).self_pid')])
+
 run_single_program = Fn(C, 'run_single_program', ret='r', pre_rewrites=RSP_RW, file_drops=True,
     add_params='Ghost(w): Ghost<Wiring>, Tracked(k): Tracked<&mut Kernel>',
-    ghost_args={'pipe': 'Tracked(k)', 'close': 'Tracked(k)', 'dup': 'Tracked(k)', 'dup2': 'Tracked(k)', 'fork': 'Tracked(k)',
+    ghost_args={'pipe': 'Tracked(k)', 'close': 'Tracked(k)', 'dup': 'Tracked(k)', 'dup2': 'Tracked(k)', 'fork': 'Tracked(k)', 'release_stage_fds': 'Tracked(k)',
                 'create_raw_fd_from_file': 'Tracked(k)', 'get_fd_from_file': 'Tracked(k)', 'vx_setpgid': 'Tracked(k)',
                 'give_terminal_to': 'Tracked(k)', 'vx_file_from_raw_fd': 'Tracked(k)'},
     let_types={'fds_stdin': 'Option<(RawFd, RawFd)>'},
@@ -524,22 +541,13 @@ run_single_program = Fn(C, 'run_single_program', ret='r', pre_rewrites=RSP_RW, f
             ('C02+C08.inv.rsp.child_ctx2', CTX),
             ('C08.inv.rsp.redir_dom_std', 'k.fds.contains_key(0) && k.fds.contains_key(1) && k.fds.contains_key(2) && !k.cloexec.contains(0) && !k.cloexec.contains(1) && !k.cloexec.contains(2)'),
             ('C08.inv.rsp.redir_dom_only',
-             'forall|fd: int| (#[trigger] k.fds.contains_key(fd) && !k.cloexec.contains(fd)) ==> (fd == 0 || fd == 1 || fd == 2 '
-             '|| (idx_cmd == pipes_count && (opt_has(*fds_capture_stdout, fd) || opt_has(*fds_capture_stderr, fd))))'),
-            ('C08.inv.rsp.redir_dom_capture',
-             'forall|fd: int| #![trigger opt_has(*fds_capture_stdout, fd)] #![trigger opt_has(*fds_capture_stderr, fd)] #![trigger k.fds.contains_key(fd)] '
-             '(idx_cmd == pipes_count && (opt_has(*fds_capture_stdout, fd) || opt_has(*fds_capture_stderr, fd))) ==> (k.fds.contains_key(fd) && !k.cloexec.contains(fd))'),
-            ('C08.inv.rsp.redir_capture_kept',
-             'idx_cmd == pipes_count && options.capture_output ==> k.fds[fds_capture_stdout.unwrap().1 as int] == Obj::PipeW(w.cap_out) '
-             '&& k.fds[fds_capture_stderr.unwrap().1 as int] == Obj::PipeW(w.cap_err)'),
+             'forall|fd: int| (#[trigger] k.fds.contains_key(fd) && !k.cloexec.contains(fd)) ==> (fd == 0 || fd == 1 || fd == 2)'),
             ('C02+C04.inv.rsp.stdin', 'k.fds[0] == want_stdin(*cmd, idx_cmd as int, w.pobj, w.hs)'),
+            # redirections are applied left to right on top of the pipeline / capture wiring, on every stage alike
             ('C02+C04.inv.rsp.out_err_left_to_right',
-             '!(idx_cmd == pipes_count && options.capture_output) ==> (k.fds[1], k.fds[2]) == apply_redirs('
+             '(k.fds[1], k.fds[2]) == apply_redirs('
              'base_out(idx_cmd as int, pipes_count as int, w.pobj, options.capture_output, w.cap_out), '
              'base_err(idx_cmd as int, pipes_count as int, options.capture_output, w.cap_err), cmd.redirects_to@, __I as int)'),
-            ('C04.inv.rsp.captured_stage_files',
-             'idx_cmd == pipes_count && options.capture_output ==> (k.fds[1], k.fds[2]) == apply_files(Obj::Inherited(1), Obj::Inherited(2), cmd.redirects_to@, __I as int) '
-             '&& stdout_redirected == redirected(cmd.redirects_to@, __I as int, true) && stderr_redirected == redirected(cmd.redirects_to@, __I as int, false)'),
         ]),
     },
     hints={
@@ -627,7 +635,7 @@ run_pipeline = Fn(C, 'run_pipeline', ret='r',
     },
 )
 
-UNIT = Unit('U-FD', TEMPLATE, fns=[Fn('src/types.rs', 'new', impl='CommandResult'), Fn('src/types.rs', 'error', impl='CommandResult'), run_single_program, run_pipeline],
+UNIT = Unit('U-FD', TEMPLATE, fns=[Fn('src/types.rs', 'new', impl='CommandResult'), Fn('src/types.rs', 'error', impl='CommandResult'), release_stage_fds, run_single_program, run_pipeline],
             types=[TypeItem('src/types.rs', 'struct', 'Command'), TypeItem('src/types.rs', 'struct', 'CommandLine'),
                    TypeItem('src/types.rs', 'struct', 'CommandResult'), TypeItem('src/types.rs', 'struct', 'CommandOptions')],
             props=('C02', 'C04', 'C08', 'C07', 'C05'))
